@@ -1286,6 +1286,12 @@ fn gen(ctx: &Ctx) -> Vec<String> {
     // (C) the default limits (no config in app data), ±1
     for (ex, d) in [("bytes", 262_144usize), ("string", 262_144), ("json", 2_097_152), ("form", 16_384), ("jb", 2_097_152), ("ue", 32_768)] {
         for n in [d - 1, d, d + 1] {
+            // the 2 MiB bodies are the most expensive cases of the run: quick tier keeps the two
+            // that decide the boundary
+            let big = d > 1_000_000 && !thorough;
+            if big && n == d - 1 {
+                continue;
+            }
             let body = match ex {
                 "json" | "jb" => format!("j:{}", n),
                 "form" | "ue" => format!("f:{}", n),
@@ -1294,8 +1300,10 @@ fn gen(ctx: &Ctx) -> Vec<String> {
             };
             cases.push(stream_case(ex, "dflt", "none", "id", &body, &random_cuts(&mut rng, n, 9, false)));
             cases.push(stream_case(ex, "dflt", &n.to_string(), "id", &body, &[Tok::Chunk(n)]));
-            let w = compress("gz", &body_of_spec(&body)).len();
-            cases.push(stream_case(ex, "dflt", "none", "gz", &body, &random_cuts(&mut rng, w, 4, false)));
+            if !big {
+                let w = compress("gz", &body_of_spec(&body)).len();
+                cases.push(stream_case(ex, "dflt", "none", "gz", &body, &random_cuts(&mut rng, w, 4, false)));
+            }
         }
     }
     // HttpMessageBody::new's built-in check against the default is overridden by .limit()
@@ -1420,6 +1428,9 @@ fn gen(ctx: &Ctx) -> Vec<String> {
         cases.push(format!("ex=mp form=A total=dflt mem=dflt fields=b:{} cuts=65536,p,100000", n));
     }
     for n in [52_428_800usize, 52_428_801] {
+        if !thorough && n == 52_428_800 {
+            continue;
+        }
         // an unknown field is discarded chunk by chunk but still charged to the total budget
         let overhead = 0;
         cases.push(format!("ex=mp form=B total=dflt mem=dflt fields=u:{} cuts=1000000", n - overhead));
